@@ -572,8 +572,8 @@ func (g *aggGen) readerOf(f string, mayNest bool) Agg {
 // for violations behind the double delivery of doc values.
 var noTwice = os.Getenv("C16_NO_TWICE") != ""
 
-var sizes = []int{0, 0, 1, 1, 2, 3, 5, 9, 10, 11, 12, 100}
-var froms = []int{0, 0, 0, 1, 2, 5, 9, 10, 11, 15}
+var sizes = []int{1, 0, 2, 3, 5, 0, 1, 9, 10, 11, 12, 100}
+var froms = []int{0, 1, 2, 0, 5, 9, 0, 10, 11, 15}
 
 func genSort(t *rapid.T, aggFields []string, onAgg bool) []string {
 	inAgg := map[string]bool{}
@@ -612,21 +612,22 @@ func genSort(t *rapid.T, aggFields []string, onAgg bool) []string {
 
 func genSetting(t *rapid.T, aggFields []string) Setting {
 	var s Setting
+	// (rapid favours small draws: the frequent kinds come first)
 	switch k := rapid.IntRange(0, 19).Draw(t, "settingKind"); {
-	case k <= 2:
-		return Setting{Kind: "all"}
-	case k <= 12:
+	case k <= 10:
 		s.Kind = "topn"
 		s.N = rapid.SampledFrom(sizes).Draw(t, "n")
 		s.From = rapid.SampledFrom(froms).Draw(t, "from")
-	case k <= 16:
+	case k <= 14:
 		s.Kind = "after"
 		s.N = rapid.SampledFrom(sizes).Draw(t, "n")
 		s.AfterIdx = rapid.IntRange(0, 59).Draw(t, "afterIdx")
-	default:
+	case k <= 17:
 		s.Kind = "before"
 		s.N = rapid.SampledFrom(sizes).Draw(t, "n")
 		s.AfterIdx = rapid.IntRange(0, 59).Draw(t, "afterIdx")
+	default:
+		return Setting{Kind: "all"}
 	}
 	// "the request sorts on an aggregated field": probability one half
 	onAgg := rapid.Bool().Draw(t, "sortOnAggregatedField") && !noTwice
